@@ -1,6 +1,7 @@
 import Dashu.Proofs.Serde.Text
 import Dashu.Props.C01
 import Dashu.Proofs.Serde.WordSize
+import Dashu.Proofs.Serde.WithBase
 import Dashu.Proofs.NT.Log2Table
 import Dashu.Model.Serde.Log2Cfg
 /-
@@ -97,6 +98,19 @@ theorem word_size_independent_text (W₁ W₂ : Nat) (h₁ : 8 ≤ W₁) (h₂ :
   WordSize.word_size_independent_text W₁ W₂ h₁ h₂ d₁ d₂
 
 example : (8 : Nat) ≤ 64 ∧ (8 : Nat) ≤ 32 ∧ 8 ∣ 64 ∧ 8 ∣ 32 := by decide
+
+/-- `FBig::with_base` (code since /repo fa3b7b8): the precision of the result is the documented maximum
+    `max {q | NewB^q ≤ B^p}` in all three branches (`p·n` for `B = NewB^n`, `p / n` for `NewB = B^n`, the
+    exact integer logarithm otherwise) — and therefore the same in every word size (before the fix it
+    came from `f32` log2 bounds of word-size dependent tightness: base 8 → 16, precision 32 gave 24
+    digits with 64-bit and 23 with 32-bit words) -/
+theorem with_base_precision_word_size_independent (W₁ W₂ B NewB p : Nat) (hB : 1 ≤ B) (hN : 2 ≤ NewB) :
+    Text.withBasePrecision W₁ B NewB p = Text.withBasePrecisionSpec B NewB p ∧
+    Text.withBasePrecision W₁ B NewB p = Text.withBasePrecision W₂ B NewB p :=
+  ⟨Text.withBasePrecision_eq_spec W₁ B NewB p hB hN, Text.withBasePrecision_word_size W₁ W₂ B NewB p⟩
+
+example : Text.withBasePrecision 32 8 16 32 = 24 ∧ Text.withBasePrecision 64 8 16 32 = 24 := by
+  constructor <;> decide
 
 /-- the two word sizes the builds use -/
 example (x y : Int) :
